@@ -739,7 +739,7 @@ def gen_spec(run_seed, tier='quick'):
                                  1 if fault_cfg < 0.9 else 2)
     w = {'decompose': rng.uniform(1, 4), 'estimate': rng.uniform(1, 4),
          'evaluate': rng.uniform(1, 5), 'group_eval': rng.uniform(0, 1.5),
-         'merge': rng.uniform(0, 1.2), 'load': rng.uniform(0.2, 1.0),
+         'merge': rng.uniform(0.2, 1.6), 'load': rng.uniform(0.2, 1.0),
          'format': rng.uniform(0, 0.6), 'read_pattern': rng.uniform(0, 0.5),
          'mapping_api': rng.uniform(0, 0.8)}
     env_ops = rng.random() < 0.3
@@ -873,7 +873,7 @@ def gen_spec(run_seed, tier='quick'):
         elif k == 'merge':
             other = rng.choice([s for s in sorted(slots) if s != sid])
             ops.append({'op': 'merge', 'client': cid, 'slot': sid,
-                        'other': other, 'overwrite': rng.random() < 0.5})
+                        'other': other, 'overwrite': rng.random() < 0.65})
             # right after a merge: repeat earlier observations, preferably
             # those made on the merged-into library
             mine_e = [(e, v) for (e, v) in evals if est_slot.get(e) == sid]
@@ -902,6 +902,57 @@ def gen_spec(run_seed, tier='quick'):
                        'fault_kinds': fault_kinds}, 'ops': ops}
 
 
+def fixed_histories():
+    """Systematic observe / merge / observe-again histories: for a few
+    library pairs that share groups, every property variant is evaluated on
+    an estimate and on a group before a merge with overwrite, evaluated
+    again after it, and once more on a new estimate."""
+    pairs = [('FixA', 'FixB', 'CCO'), ('GuSolventGA2017Aq', 'GRWAqueous2018',
+                                       'CC([Pt])O'),
+             ('GRWSurface2018', 'PtSurface2023', '[Pt]CC'),
+             ('XieGA2022', 'BensonGA', 'CCC'),
+             ('SalciccioliGA2012', 'GRWSurface2018', 'C([Pt])C[Pt]')]
+    variants = []
+    for T in (298.15, 500.0):
+        for m in ('get_CpoR', 'get_HoRT', 'get_SoR', 'get_GoRT'):
+            variants.append({'m': m, 'T': T})
+        variants.append({'m': 'get_SoR', 'T': T, 'S_el': True})
+        variants.append({'m': 'get_G', 'T': T, 'unit': 'kJ/mol',
+                         'S_el': True})
+        variants.append({'m': 'get_S', 'T': T, 'unit': 'J/mol/K'})
+        variants.append({'m': 'get_H', 'T': T, 'unit': 'kcal/mol'})
+    out = []
+    for a, b, mol in pairs:
+        ops = [{'op': 'load', 'client': 0, 'slot': 0, 'lib': a, 'how': 'name'},
+               {'op': 'load', 'client': 1, 'slot': 1, 'lib': b, 'how': 'name'},
+               {'op': 'decompose', 'client': 0, 'slot': 0, 'mol': mol,
+                'out': 'd0'},
+               {'op': 'estimate', 'client': 0, 'slot': 0, 'from': 'd0',
+                'out': 'e0'}]
+        obs = []
+        for v in variants:
+            obs.append({'op': 'evaluate', 'client': 0, 'est': 'e0',
+                        'v': dict(v)})
+        for gi in (0, 3, 7):
+            for v in variants[:4]:
+                obs.append({'op': 'group_eval', 'client': 1, 'slot': 0,
+                            'gi': gi, 'v': dict(v)})
+        ops += obs
+        ops.append({'op': 'merge', 'client': 1, 'slot': 0, 'other': 1,
+                    'overwrite': True})
+        ops += [dict(o, v=dict(o['v'])) for o in obs]
+        ops.append({'op': 'estimate', 'client': 0, 'slot': 0, 'from': 'd0',
+                    'out': 'e1'})
+        for v in variants:
+            ops.append({'op': 'evaluate', 'client': 0, 'est': 'e1',
+                        'v': dict(v)})
+        ops.append({'op': 'mapping_api', 'client': 0, 'slot': 0})
+        out.append({'property': PROP, 'run_seed': 'fixed-%s-%s' % (a, b),
+                    'config': {'clients': 2, 'libs': [a, b],
+                               'fault_kinds': []}, 'ops': ops})
+    return out
+
+
 def plan(tier, verif_seed):
     n = 400 if tier == 'quick' else 6000
     n = int(os.environ.get('VERIF_C15_RUNS', n))
@@ -921,6 +972,8 @@ def plan(tier, verif_seed):
     if ex:
         tasks.append({'id': 'known-finding-examples', 'seeds': [],
                       'specs': ex})
+    for i, sp in enumerate(fixed_histories()):
+        tasks.append({'id': 'fixed-%d' % i, 'seeds': [], 'specs': [sp]})
     return tasks
 
 
